@@ -17,8 +17,8 @@ export const assumptions = [
 
 const FIELDS = [...DATA_NAMES, 'list', 'arr', 'obj', 'ob', 'flag', 'n', 's']
 
-function freshTree(ge, G, main, D, extra) {
-  const { comp, tr, error } = instantiate(ge, G, main, D, { keepEvents: false, templateExtra: extra })
+function freshTree(ge, G, main, D, extra, propComponents) {
+  const { comp, tr, error } = instantiate(ge, G, main, D, { keepEvents: false, templateExtra: extra, propComponents })
   if (error) return { error }
   return { tree: snap(ge, comp, tr, {}) }
 }
@@ -48,10 +48,11 @@ export function runHistory(ctx, c, res) {
   const extra = c.mode === 'virtualTree' ? { updateMode: 'virtualTree' } : {}
   const dataSeed = c.dataSeed
   const mk = () => makeData(new Rng(dataSeed), { small: true })
-  const live = instantiate(ge, G, c.fs.main, mk(), { keepEvents: false, templateExtra: extra })
+  const pc = (c.caseSeed & 1) === 1 // `<x-a>` is a real child component in every second case
+  const live = instantiate(ge, G, c.fs.main, mk(), { keepEvents: false, templateExtra: extra, propComponents: pc })
   if (live.error) { report.count('creation_throws'); return }
   const shadow = mk() // pure copy on which the ops are applied to know D_i
-  const first = freshTree(ge, G, c.fs.main, mk(), extra)
+  const first = freshTree(ge, G, c.fs.main, mk(), extra, pc)
   if (first.error) { report.count('creation_throws'); return }
   let prevTree = first.tree
   let changedOnce = false
@@ -76,7 +77,7 @@ export function runHistory(ctx, c, res) {
     // fresh creation with D_i (a structurally equal, unshared copy: re-apply the ops on a new base)
     const base = mk()
     for (let k = 0; k <= i; k++) applyOp(base, c.ops[k])
-    const fresh = freshTree(ge, G, c.fs.main, base, extra)
+    const fresh = freshTree(ge, G, c.fs.main, base, extra, pc)
     report.evals()
     if (fresh.error) { report.count('fresh_creation_throws'); return }
     const got = snap(ge, live.comp, live.tr, {})
